@@ -3505,6 +3505,23 @@ func (pid *PID) spawnChildLocal(ctx context.Context, name string, actor Actor, c
 			return nil, err
 		}
 
+		// the parent may have begun to stop while the child was being created.
+		// A stop sets the stopping flag before it snapshots the children, and the
+		// child is attached before this re-check, so one side always sees the
+		// other; without it the child escaped the stop and kept running under a
+		// dead parent, out of reach of every later stop.
+		if !pid.IsRunning() {
+			_, attached := tree.node(cid.ID())
+			_ = cid.Shutdown(ctx)
+			if !attached && !cid.isStateSet(systemState) {
+				// the parent's node was already gone, so the child never got a
+				// tree node: no death watch will see its stop and undo the
+				// actors-counter bump of the spawn
+				pid.ActorSystem().decreaseActorsCounter()
+			}
+			return nil, gerrors.ErrDead
+		}
+
 		// the event is published only after successful cluster publication, so it
 		// means durable creation
 		eventsStream := pid.eventsStream
